@@ -96,7 +96,7 @@ func init() {
 		Assume:      []string{"deferred functions run on every return and on panic"},
 	})
 	register(&propDef{ID: "C06",
-		Rules: []func(*Ctx){onlyObligations(ruleLockBlock, func(o *Obligation) bool { return strings.HasPrefix(o.Func, "MuxBroker.") }), ruleExpiryDrain, ruleRunDispatch, rulePendDone, ruleWindows, ruleSlotCapacityOne, ruleWireAgreement, ruleDeadline, ruleGetOrCreate, ruleExpiry, ruleRunNonBlocking, ruleFreshMsg,
+		Rules: []func(*Ctx){ruleNoCopySync, onlyObligations(ruleLockBlock, func(o *Obligation) bool { return strings.HasPrefix(o.Func, "MuxBroker.") }), ruleExpiryDrain, ruleRunDispatch, rulePendDone, ruleWindows, ruleSlotCapacityOne, ruleWireAgreement, ruleDeadline, ruleGetOrCreate, ruleExpiry, ruleRunNonBlocking, ruleFreshMsg,
 			ruleIDMux, ruleSlot, guardOn("MuxBroker."), scoped(ruleBoundScoped, fnIn("MuxBroker.Accept", "MuxBroker.timeoutWait", "MuxBroker.Run", "MuxBroker.Dial")), ruleAtomicIDs,
 		},
 		Technique:   "origin (def-use) resolution of the brokered id on both ends, channel-capacity check, lockset on the pending map, timer-arm classification",
@@ -105,7 +105,7 @@ func init() {
 		Assume:      []string{"yamux delivers each stream's bytes in order to its peer only"},
 	})
 	register(&propDef{ID: "C07",
-		Rules: []func(*Ctx){onlyObligations(ruleLockBlock, func(o *Obligation) bool { return strings.HasPrefix(o.Func, "GRPCBroker.") }), ruleRunDispatch, rulePendDone, ruleNoAppendToParam, ruleWindows, ruleTranslateDirections, ruleSlotCapacityOne, ruleIDRoles, ruleDeadline, ruleGetOrCreate, ruleExpiry, ruleRunNonBlocking, ruleFreshMsg, ruleTranslate, ruleCtorStoresTLS,
+		Rules: []func(*Ctx){ruleNoCopySync, onlyObligations(ruleLockBlock, func(o *Obligation) bool { return strings.HasPrefix(o.Func, "GRPCBroker.") }), ruleRunDispatch, rulePendDone, ruleNoAppendToParam, ruleWindows, ruleTranslateDirections, ruleSlotCapacityOne, ruleIDRoles, ruleDeadline, ruleGetOrCreate, ruleExpiry, ruleRunNonBlocking, ruleFreshMsg, ruleTranslate, ruleCtorStoresTLS,
 			ruleIDGRPC, ruleSlot, guardOn("GRPCBroker."), scoped(ruleErrL1Scoped, fnIn("GRPCBroker.DialWithOptions", "GRPCBroker.Accept", "GRPCBroker.AcceptAndServe")),
 			scoped(ruleErrL2Scoped, fnIn("GRPCBroker.DialWithOptions", "GRPCBroker.Accept")), scoped(ruleBoundScoped, fnIn("GRPCBroker.DialWithOptions", "GRPCBroker.timeoutWait", "GRPCBroker.Run")),
 			ruleTLSUse, ruleAtomicIDs,
@@ -190,13 +190,13 @@ func init() {
 		NotDecided:  "the rest of the goroutine clause: that each loop actually exits within seconds of Kill is a liveness property over runtime events; R-BOUND only excludes operations that can wait forever.",
 	})
 	register(&propDef{ID: "C19",
-		Rules:       []func(*Ctx){ruleKillClears, ruleOnce, guardOn("Client.")},
+		Rules:       []func(*Ctx){ruleNoCopySync, ruleKillClears, ruleOnce, guardOn("Client.")},
 		Technique:   "typestate of the launch region (once-flag tested before, stored before, never reset) via dominance queries; cache-structure check of Client(); lockset on Client fields",
 		Explanation: "Decides: all launch sites in Start are reachable only when a Client once-flag was observed unset, the flag is stored on every path before the first launch site and never reset anywhere in the module; Client() creates a protocol client only when none is cached, returns the cached one otherwise and clears the cache on failure; all of this runs under the client lock (R-GUARD). Every field whose set value short-circuits Start (address, launched) is never reset anywhere. Client state is stored by Start only behind the launched-once test; the protocol-client cache is reset only by Client(); Kill clears the runner reference.",
 		NotDecided:  "pointer equality of returned values across calls (follows from the cache structure but is a run-time fact).",
 	})
 	register(&propDef{ID: "C20",
-		Rules:       []func(*Ctx){ruleNoAppendToParam, ruleFresh, ruleErrL3, ruleLockPair, ruleLockOrder, ruleGetOrCreate, ruleGuard, ruleClose1, ruleLockBlock, ruleNilGuard, ruleAssert},
+		Rules:       []func(*Ctx){ruleNoCopySync, ruleNoAppendToParam, ruleFresh, ruleErrL3, ruleLockPair, ruleLockOrder, ruleGetOrCreate, ruleGuard, ruleClose1, ruleLockBlock, ruleNilGuard, ruleAssert},
 		Technique:   "lockset analysis with inferred guards and caller summaries, field-write discipline, atomic-only id counters, close-once classification",
 		Explanation: "Decides: every access to a shared field named by the property's anchors holds the mutex inferred as its guard, in its own lock region or in all callers (reviewed happens-before exceptions for reads only); every other struct-field write outside constructors is under a mutex, inside sync.Once.Do or in the reviewed table; the id counters are touched only through sync/atomic; every close() is inside Once.Do, nil-test-and-clear under a mutex, a local single owner, or a reviewed shared close (R-CLOSE1); no blocking under a mutex; no unguarded optional-pointer dereference; no panicking assertion on plugin data. No nil-able result is dereferenced before its error was tested (R-ERR/L3); the chunk buffer sent on the stdio channel is allocated per iteration (R-FRESH); a reply channel is closed only after the reply was received (R-CLOSE1/reply). No append into a slice parameter (R-ALIAS).",
 		NotDecided:  "races the lockset abstraction cannot express (happens-before through channels beyond the tabled exceptions), races inside dependencies, uniqueness of ids beyond 'atomic add, no other writer'.",
